@@ -43,6 +43,9 @@ def gen_temporal(rng, n, tier):
     for _ in range(n):
         k = rng.randint(2, 12)
         base = rng.choice([1000, 1000, 1000, 4107542390, 4107542400 + 86400 * 40, 951782390])       # ordinary instants, or around the end of February 2100 / 2000 and later in 2100
+        byear = rng.choice([1980, 1972, 1999]) if rng.random() < 0.12 else None
+        if byear:
+            base = rng.choice([4107542390, 951782390, 4107542400 + 86400 * 40])
         ts = sorted(rng.sample(range(base, base + 4 * k + 10), k))
         ms = [rng.choice([0, 0, 250, 500, 750]) for _ in ts]
         if rng.random() < 0.1:                      # a track whose first fix carries the default timestamp (01/01/1970 00:00:00.000), as left by incrementTime()
@@ -53,7 +56,7 @@ def gen_temporal(rng, n, tier):
             for c in coords:
                 c[i] = c[i - 1]
         form = rng.choice(['list', 'list', 'number', 'track'])
-        case = {'T': ts, 'ms': ms, 'X': coords[0], 'Y': coords[1], 'Z': coords[2], 'form': form, 'zone': rng.choice([0, 0, 0, 2, -3]) if form == 'number' else 0}
+        case = {'T': ts, 'ms': ms, 'X': coords[0], 'Y': coords[1], 'Z': coords[2], 'form': form, 'zone': rng.choice([0, 0, 0, 2, -3]) if form == 'number' else 0, 'byear': byear}
         lo, hi = ts[0] - 5, ts[-1] + 6
         if form == 'number':
             dur = ts[-1] - ts[0]
@@ -86,6 +89,21 @@ def ref_instants(case, tini, tfin):
     return [s + m / 1000.0 for s, m in case['ref']]
 
 
+def with_base_year(case, fn):
+    """the resampling run with the library's reference year moved (ObsTime.UNIX_BASE_YEAR, a documented class attribute shared by toAbsTime and readUnixTime) to a year
+    not later than the track: the calendar dates produced are the same.  The track is built and observed under the default reference year."""
+    by = case.get('byear')
+    if not by or case['T'][0] < 946684800:           # (the reference year must not be later than the track: such a case runs with the default)
+        return fn()
+    from tracklib.core import ObsTime
+    old = ObsTime.UNIX_BASE_YEAR
+    ObsTime.UNIX_BASE_YEAR = by
+    try:
+        return fn()
+    finally:
+        ObsTime.UNIX_BASE_YEAR = old
+
+
 def also(case):
     """further keyword arguments of the call that must not matter once a step is given ("If both are specified, priority is given to delta"): a number of points, a factor, the algorithm named explicitly;
     derived from the case itself so that every replay makes the same call"""
@@ -108,7 +126,7 @@ def run_temporal(case):
             t.ms = m
             lst.append(t)
         arg = lst if case['form'] == 'list' else mktrack([s for s, _ in case['ref']], [m for _, m in case['ref']], *[[0.0] * len(lst)] * 3)
-    tr.resample(delta=arg, mode=2, **also(case))
+    with_base_year(case, lambda: tr.resample(delta=arg, mode=2, **also(case)))
     return observe(tr)
 
 
@@ -204,8 +222,11 @@ def gen_spatial(rng, n, tier):
             X[-1] += 3; Y[-1] += 4
         Z = [float(rng.choice([0, 1, 2, 10, 0.5])) for _ in range(k)]
         base = rng.choice([100, 100, 100, 4107542390, 4107542400 + 86400 * 40, 951782390])
+        byear = rng.choice([1980, 1972, 1999]) if rng.random() < 0.12 else None
+        if byear:
+            base = rng.choice([4107542390, 951782390, 4107542400 + 86400 * 40])
         T = sorted(rng.sample(range(base, base + 3 * k + 5), k))
-        out.append({'X': X, 'Y': Y, 'Z': Z, 'T': T, 'ms': [0] * k, 'ds': rng.choice([0.25, 0.5, 1, 2, 4, 5, 2.5, 10, 13]), 'zone': rng.choice([0, 0, 0, 2, -3])})
+        out.append({'X': X, 'Y': Y, 'Z': Z, 'T': T, 'ms': [0] * k, 'ds': rng.choice([0.25, 0.5, 1, 2, 4, 5, 2.5, 10, 13]), 'zone': rng.choice([0, 0, 0, 2, -3]), 'byear': byear})
     return out
 
 
@@ -222,7 +243,7 @@ def run_spatial(case):
     tr.createAnalyticalFeature('a', 1.0)
     if case.get('zone'):
         tr.setTimeZone(case['zone'])              # a label on the timestamps: the instants, hence the interpolated ones, are the same wall-clock fields
-    tr.resample(delta=case['ds'], mode=1, **also(case))
+    with_base_year(case, lambda: tr.resample(delta=case['ds'], mode=1, **also(case)))
     o = observe(tr)
     o['S'] = abscissas(case)
     return o
